@@ -193,6 +193,7 @@ def fam_confutil(v, n):
                 k = rng.choice(["project", "type", "state", "ext", "version", "task"])
                 reps.append(["{%s}" % k, "{%s:(%s|\\*|\\>)}" % (k, rng.choice(["a|b", "v\\d\\d\\d", "w|p"]))])
             kp.append([sel, [[k, val] for k, val in dict(reps).items()]])
+        kp = [[k, val] for k, val in dict((a, b) for a, b in kp).items()]      # a dict: selectors are unique
         ops.append({"op": "pattern_replacing", "templates": [list(p) for p in templates], "key_patterns": kp})
     # the shipped configuration itself, and the documented corner
     ops.append({"op": "extrapolate_templates", "sep": "__", "templates": v.d["raw"]["sid_templates"], "to_extrapolate": v.d["raw"]["to_extrapolate"]})
